@@ -6,8 +6,16 @@ func genAll() {
 	genLocks()
 	genCallback()
 	genDKGTable()
+	genTimeCalls()
 	genSecrets()
 	genMirrors()
 	genRouting()
 	genPersist()
+	genLockCalls()
+	genDerefs()
+	genListeners()
+	genBeaconNode()
+	genDKGRun()
+	genSync()
+	genHandler()
 }
